@@ -102,7 +102,8 @@ CLAIMS.update({
         category="model_checking",
         text="Skip-decision part only: the decision skeletons of Walk::skip_entry (serial) and Worker::generate_work (parallel) are "
              "extracted from the nightly compiler's MIR dump of the ignore crate (regenerated from /repo on every run): every CFG path "
-             "is evaluated symbolically, calls to a fixed list of callees become shared Boolean atoms (ignored, is_stdout, size limit "
+             "is evaluated symbolically, calls to a fixed list of callees become shared Boolean atoms (ignore verdict on the link / on the "
+             "resolved entry -- the atom is versioned by whether the symlink re-stat precedes the call on that path --, is_stdout, size limit "
              "set, is_dir, over size, filter set, filter accepts, follow_links, is_symlink), and z3 decides that for EVERY assignment "
              "the two walkers agree on whether the entry is handed on and that each equals the documented conjunction. A sat "
              "assignment is replayed natively on a real temp tree through both real walkers.",
